@@ -119,6 +119,9 @@ func (s *scn) do(op *worldOp) *stepResult {
 	for _, m := range s.mons {
 		m(s.c, s.w, pre, sr, s.hist)
 	}
+	if !s.quiet && len(s.c.rep.Samples) < 5 && sr.Res.Status == 0 && len(s.ops)%7 == 3 {
+		s.c.sample(map[string]string{"family": s.name, "op": op.String(), "status": statusName(sr.Res.Status)})
+	}
 	if !s.quiet && (s.emitProb <= 1 || s.c.rng.Intn(s.emitProb) == 0) && s.budget.take() {
 		s.c.addExecCase(s.w, sr.Call, sr.Res)
 	}
